@@ -95,7 +95,7 @@ def gen_ufunc_case(rng):
         kw["dtype"] = ["dt", rng.choice(["float32", "float64", "float16"])]
     opt = None
     if sp != "op" and fn != "matmul" and rng.random() < 0.3:
-        opt = rng.choice(["out", "out+where", "out_tensor", "out_tensor"])
+        opt = rng.choice(["out", "out+where", "out_tensor", "out_tensor", "out_view", "out_view"])
     return {"prog": b.prog, "call": {"k": "call", "out": "res", "fn": fn, "sp": sp, "a": args, "kw": kw}, "opt": opt,
             "kinds": kinds, "mseed": rng.randrange(1 << 30)}
 
@@ -161,7 +161,22 @@ def _run(backend, case, untracked=False, out_proto=None, mask=None, out_tensor=F
     if out_proto is not None:
         outarr = np.full(out_proto.shape, 7, dtype=out_proto.dtype)
         it.env["__out"] = outarr
-        if out_tensor and backend == "mg":
+        if out_tensor == "view":
+            # the target is a layout-dependent VIEW (transpose + reshape) of a Fortran-ordered base: the write must land in the base
+            n = outarr.size
+            a = next((d for d in (3, 2, 5, 7) if n % d == 0 and n // d > 1), 1)
+            fb = np.asfortranarray(np.full((a, n // a) if n else (1, 0), 7, dtype=outarr.dtype))
+            if backend == "mg":
+                import mygrad as _mg
+                import contextlib
+                with (_mg.no_autodiff if untracked else contextlib.nullcontext()):   # an untracked run builds its views untracked too
+                    tb_ = _mg.tensor(fb, constant=None if fb.dtype.kind == "f" else True)
+                    it.env["__base"] = tb_
+                    it.env["__out"] = tb_.T.reshape(-1).reshape(outarr.shape)
+            else:
+                it.env["__base"] = fb
+                it.env["__out"] = fb.T.reshape(-1).reshape(outarr.shape)
+        elif out_tensor and backend == "mg":
             import mygrad as _mg
             it.env["__out"] = _mg.tensor(outarr, constant=None if outarr.dtype.kind == "f" else True)
         kw["out"] = ["r", "__out"]
@@ -175,7 +190,10 @@ def _run(backend, case, untracked=False, out_proto=None, mask=None, out_tensor=F
                 it.exec(len(case["prog"]), call)
         else:
             it.exec(len(case["prog"]), call)
-    if out_tensor and backend == "mg" and out_proto is not None:
+    if out_tensor == "view" and out_proto is not None:
+        bb = it.env["__base"]
+        outarr = np.array(bb.data if backend == "mg" else bb)   # what ended up in the BASE
+    elif out_tensor and backend == "mg" and out_proto is not None:
         outarr = it.env["__out"].data
     return it.env[call["out"]], outarr, it
 
@@ -238,12 +256,16 @@ def run_case(case):
         if case["opt"] == "out+where":
             mask = np.array([rng.random() < 0.5 for _ in range(want.size)], dtype=bool).reshape(want.shape)
         try:
-            w2, wout, _ = _run("np", case, out_proto=want, mask=mask)
+            w2, wout, _ = _run("np", case, out_proto=want, mask=mask, out_tensor="view" if case["opt"] == "out_view" else False)
         except Exception:
             w2 = None
         if w2 is not None:
             try:
-                g2, gout, _ = _run("mg", case, out_proto=want, mask=mask, out_tensor=case["opt"] == "out_tensor")
+                ot = "view" if case["opt"] == "out_view" else (case["opt"] == "out_tensor")
+                g2, gout, _ = _run("mg", case, out_proto=want, mask=mask, out_tensor=ot)
+                if case["opt"] == "out_view":   # and identically with tracking off
+                    _, gout_u, _ = _run("mg", case, untracked=True, out_proto=want, mask=mask, out_tensor=ot)
+                    compare("out=view (no_autodiff)", gout_u, wout, viol, fn, case, cnt, "compared_out")
                 compare("out=", gout, wout, viol, fn, case, cnt, "compared_out")
                 if not viol:
                     compare("out= result", g2, np.asarray(w2), viol, fn, case, cnt, "compared_out")
